@@ -30,8 +30,16 @@ func TestVerifC17Debug(t *testing.T) {
 	sc0 := c17Gen(sim.NewRand(sim.Mix(seed, 1)), "quick")
 	b, _ := json.Marshal(sc0)
 	fmt.Println(string(b))
-	for k := 0; k < 12; k++ {
-		a, c := run(), run()
+	replay := func(tape []uint32) *sim.Result {
+		sc0 := c17Gen(sim.NewRand(sim.Mix(seed, 1)), "quick")
+		b, _ := json.Marshal(sc0)
+		sc := &c17Scenario{}
+		json.Unmarshal(b, sc)
+		return sim.Execute(t, sim.Options{Tape: tape, Replay: true, MaxSteps: 60000, TraceSteps: true, KeepLog: 100000}, func(r *sim.Run) { c17Exec(r, sc) })
+	}
+	for k := 0; k < 40; k++ {
+		a := run()
+		c := replay(a.Tape)
 		if a.Hash != c.Hash {
 			for i := 0; i < len(a.Log) && i < len(c.Log); i++ {
 				if a.Log[i] != c.Log[i] {
